@@ -405,6 +405,9 @@ func (dec *Decoder) readCount() int {
 // the count, never more than the input that is buffered can justify plus a fixed slack. What
 // really arrives beyond that grows the destination step by step.
 func (dec *Decoder) prealloc(count int) int {
+	if count < 0 {
+		return 0
+	}
 	if limit := dec.tail - dec.head + 1024; count > limit {
 		return limit
 	}
